@@ -54,6 +54,8 @@ def detect(seed, pids, tier="quick"):
             sigs = [l.strip() for l in c.stdout.splitlines() if l.strip().startswith("signature:")]
             res[pid] = {"rc": c.returncode, "violations": len(viol), "signatures": sigs[:6]}
             print(pid, "rc=%d violations=%d" % (c.returncode, len(viol)), sigs[:3], (c.stderr[-300:] if c.returncode == 2 else ""))
+            if viol and os.environ.get("SEED_FIRST") == "1":
+                break           # developer shortcut: the first alarming check is enough
     finally:
         sh(["git", "checkout", "--", "."], cwd="/repo")
         # replays written while a seeded change was applied are not evidence of anything on the real tree
